@@ -214,6 +214,64 @@ def run_gen(job, ctx):
             check_gen(m, '  ' + q, dtlib.rand_ref(r), 'timerange', want, pred, ctx, 'timerange|ampm|blanks')
 
 
+# unit words of the other cultures (singular, plural, code, seconds); hour words that double as "o'clock" (fr heure, nl uur,
+# pt hora) and zh 年 (N年 is also the year N) are genuinely ambiguous in the language and are left out
+CULT_UNITS = {
+    'es-es': [('segundo', 'segundos', 'TS', 1), ('minuto', 'minutos', 'TM', 60), ('hora', 'horas', 'TH', 3600), ('día', 'días', 'D', 86400), ('semana', 'semanas', 'W', 604800), ('mes', 'meses', 'M', 2592000), ('año', 'años', 'Y', 31536000)],
+    'fr-fr': [('seconde', 'secondes', 'TS', 1), ('minute', 'minutes', 'TM', 60), ('jour', 'jours', 'D', 86400), ('semaine', 'semaines', 'W', 604800), ('mois', 'mois', 'M', 2592000), ('an', 'ans', 'Y', 31536000)],
+    'de-de': [('Sekunde', 'Sekunden', 'TS', 1), ('Minute', 'Minuten', 'TM', 60), ('Stunde', 'Stunden', 'TH', 3600), ('Tag', 'Tage', 'D', 86400), ('Woche', 'Wochen', 'W', 604800), ('Monat', 'Monate', 'M', 2592000), ('Jahr', 'Jahre', 'Y', 31536000)],
+    'it-it': [('secondo', 'secondi', 'TS', 1), ('minuto', 'minuti', 'TM', 60), ('ora', 'ore', 'TH', 3600), ('giorno', 'giorni', 'D', 86400), ('settimana', 'settimane', 'W', 604800), ('mese', 'mesi', 'M', 2592000), ('anno', 'anni', 'Y', 31536000)],
+    'nl-nl': [('seconde', 'seconden', 'TS', 1), ('minuut', 'minuten', 'TM', 60), ('dag', 'dagen', 'D', 86400), ('week', 'weken', 'W', 604800), ('maand', 'maanden', 'M', 2592000), ('jaar', 'jaar', 'Y', 31536000)],
+    'pt-br': [('segundo', 'segundos', 'TS', 1), ('minuto', 'minutos', 'TM', 60), ('dia', 'dias', 'D', 86400), ('semana', 'semanas', 'W', 604800), ('mês', 'meses', 'M', 2592000), ('ano', 'anos', 'Y', 31536000)],
+    'zh-cn': [('秒', '秒', 'TS', 1), ('分钟', '分钟', 'TM', 60), ('小时', '小时', 'TH', 3600), ('天', '天', 'D', 86400), ('周', '周', 'W', 604800), ('个月', '个月', 'M', 2592000)],
+}
+CULT_UNITS['es-mx'] = CULT_UNITS['es-es']
+
+
+def run_durations_cultures(job, ctx):
+    from rtmon import lib
+    cu = job['culture']
+    m = dtlib.dt_model(cu)
+    r = ctx.rng('c10:dur:' + cu)
+    ns = [1, 2, 3, 7, 15, 30, 59, 100, 365, 1000, 4999] + [r.randrange(2, 5001) for _ in range(8 if ctx.tier == 'quick' else 200)]
+    for sg, pl, code, sec in CULT_UNITS[cu]:
+        for N in ns:
+            q = ('%d%s' % (N, pl)) if cu == 'zh-cn' else '%d %s' % (N, sg if N == 1 else pl)
+            tx = 'P' + ('T' if code[0] == 'T' else '') + str(N) + code[-1]
+            want = {'timex': tx, 'value': str(N * sec)}
+            where = {'model': 'DateTimeModel', 'culture': cu, 'cls': 'duration|' + sg, 'digits': '>=3' if N >= 100 else '<3'}
+            key = '%s|%s' % (cu, q)
+            try:
+                res = m.parse(q, R0)
+            except Exception as e:
+                ctx.observe(key=key, cell=cu + ':duration')
+                ctx.fail('exception', where, key, {'culture': cu, 'query': q, 'reference': R0.isoformat()}, want, repr(e))
+                continue
+            obs = dtlib.view(res)
+            ctx.event('boundary_calls')
+            ctx.observe(key=key, nontrivial=len(res) == 1 and res[0].resolution is not None, cell=cu + ':duration', sample={'culture': cu, 'query': q, 'observed': obs})
+            mech = None
+            if not res:
+                mech = 'missed'
+            elif len(res) > 1:
+                mech = 'split'
+            else:
+                e = res[0]
+                vs = dtlib.vals(e)
+                if e.resolution is None or not vs:
+                    mech = 'unresolved'
+                elif (e.start, e.end) != (0, len(q) - 1):
+                    mech = 'wrong-span'
+                elif e.type_name != 'datetimeV2.duration':
+                    mech = 'duration-read-as-' + e.type_name.split('.')[-1]
+                elif len(vs) != 1 or vs[0].get('timex') != tx:
+                    mech = 'wrong-duration-timex'
+                elif vs[0].get('value') != want['value']:
+                    mech = 'wrong-duration-seconds'
+            if mech:
+                ctx.fail('%s:duration' % mech, where, key, {'culture': cu, 'query': q, 'reference': R0.isoformat(), 'want': want, 'cls': 'duration|' + sg}, want, {'entities': obs})
+
+
 def run_triple(job, ctx):
     from rtmon import lib
     cu = job['culture']
@@ -245,6 +303,7 @@ def run_triple(job, ctx):
 
 def plan(tier, seed):
     jobs = [{'name': p, 'kind': 'gen', 'part': p} for p in ('duration', 'daterange', 'timerange')]
+    jobs += [{'name': 'dur-' + cu, 'kind': 'durcult', 'culture': cu} for cu in sorted(CULT_UNITS)]
     for cu in dtlib.DT_CULTURES:
         sh = 4 if cu == 'en-us' else 1
         if tier == 'thorough' and cu == 'en-us':
@@ -255,7 +314,7 @@ def plan(tier, seed):
 
 
 def run(job, ctx):
-    (run_gen if job['kind'] == 'gen' else run_triple)(job, ctx)
+    {'gen': run_gen, 'triple': run_triple, 'durcult': run_durations_cultures}[job['kind']](job, ctx)
 
 
 def replay_case(fail, ctx):
